@@ -58,6 +58,8 @@ def exec_case(check, case, timeout):
     old = signal.signal(signal.SIGALRM, _alarm)
     signal.setitimer(signal.ITIMER_REAL, timeout)
     t0 = time.time()
+    from . import common as _common
+    _common.TIMEOUT_FIRED = False
     try:
         res = check.run_case(case)
     except CaseTimeout:
@@ -74,6 +76,8 @@ def exec_case(check, case, timeout):
         signal.setitimer(signal.ITIMER_REAL, 0)
         signal.signal(signal.SIGALRM, old)
     res["wall"] = time.time() - t0
+    if _common.TIMEOUT_FIRED:
+        res["timing"] = True        # an inner wall-clock guard fired: the outcome is load dependent
     return res
 
 
@@ -227,7 +231,7 @@ def digests_for(prop, verif_seed, tier, n, timeout):
         case["run_index"] = i
         case["run_seed"] = rs
         res = exec_case(check, case, timeout)
-        out[i] = "%s:%s" % (res["outcome"], res.get("digest") or res.get("reason"))
+        out[i] = "wall-timeout" if res.get("timing") else "%s:%s" % (res["outcome"], res.get("digest") or res.get("reason"))
     return out
 
 
@@ -405,7 +409,7 @@ def main(argv=None):
                 r = results.get(i)
                 if r is None:
                     continue
-                mine[str(i)] = "skip" if (r["outcome"] == "skip" and r.get("reason") == "generator-none") else "%s:%s" % (r["outcome"], r.get("digest") or r.get("reason"))
+                mine[str(i)] = "skip" if (r["outcome"] == "skip" and r.get("reason") == "generator-none") else ("wall-timeout" if r.get("timing") else "%s:%s" % (r["outcome"], r.get("digest") or r.get("reason")))
             diff = [i for i in mine if other.get(i) != mine[i] and "wall-timeout" not in (mine[i] + str(other.get(i)))]
             selftest = {"runs_compared": len(mine), "mismatches": diff, "other_hashseed": 12345}
             if diff:
